@@ -65,7 +65,91 @@ def run_types(prop, tier, seed, t0):
     return fw.finish(prop, tier, seed, t0, audit, stats, violations, corr_breaks, known_lines)
 
 
+def merge_streams(outs):
+    tot = {"ops": 0, "corr": [], "hist": {}, "samples": [], "oracles": {}}
+    for o in outs:
+        tot["ops"] += o.get("ops", 0)
+        tot["corr"] += o.get("corr", [])
+        tot["samples"] += o.get("samples", [])[:1]
+        for k, v in o.get("hist", {}).items():
+            tot["hist"][k] = tot["hist"].get(k, 0) + v
+        for name, oc in o.get("oracles", {}).items():
+            t = tot["oracles"].setdefault(name, {"n": 0, "nontrivial": 0, "viol": [], "known": {}})
+            t["n"] += oc["n"]
+            t["nontrivial"] += oc["nontrivial"]
+            t["viol"] += oc["viol"][:3]
+            for k, v in oc["known"].items():
+                e = t["known"].setdefault(k, {"count": 0, "witness": v["witness"]})
+                e["count"] += v["count"]
+    return tot
+
+
+# per property: Lean modules holding its theorems, the streams it runs, the oracle it reads
+SPECS = {
+    "C01": dict(modules=["Ovldverif.Props.C01"], streams=["fn", "fn_rich"], oracle="C01"),
+    "C02": dict(modules=["Ovldverif.Props.C02"], streams=["table_static", "fn_static"], oracle="C02"),
+    "C03": dict(modules=["Ovldverif.Props.C03"], streams=["fn", "fn_static"], oracle="C03"),
+    "C04": dict(modules=["Ovldverif.Props.C04"], streams=["table_static", "table_rich", "fn"], oracle="C04"),
+    "C05": dict(modules=["Ovldverif.Props.C05"], streams=["table_static", "table_rich", "fn"], oracle="C05"),
+    "C06": dict(modules=["Ovldverif.Props.C06"], streams=["table_static", "fn_static"], oracle="C06"),
+    "C07": dict(modules=["Ovldverif.Props.C07"], streams=["table_static", "fn_static"], oracle="C07"),
+    "C20": dict(modules=["Ovldverif.Props.C20"], streams=["table_rich", "fn"], oracle="C20"),
+}
+
+STREAMS = {
+    "table_static": ("check_table", "worker", lambda seed, n: (seed, n, True), "D"),
+    "table_rich": ("check_table", "worker", lambda seed, n: (seed + 7, n, False), "D"),
+    "fn": ("check_fn", "worker", lambda seed, n: (seed + 11, n, {"static_only": False}), "F"),
+    "fn_static": ("check_fn", "worker", lambda seed, n: (seed + 13, n, {"static_only": True}), "F"),
+    "fn_rich": ("check_fn", "worker", lambda seed, n: (seed + 17, n, {"static_only": False, "bodies": True}), "F"),
+}
+
+
+def run_generic(prop, tier, seed, t0):
+    spec = SPECS[prop]
+    root = open(os.path.join(fw.LEAN_DIR, "Ovldverif.lean")).read()
+    modules = [m for m in spec["modules"] + ["Ovldverif.Lemmas.Fuel"] if m in root]
+    audit = fw.lean_audit(modules)
+    nb, per = (16, 14) if tier == "quick" else (64, 60)
+    outs = []
+    for st in spec["streams"]:
+        mod, fn, mk, layer = STREAMS[st]
+        k = max(1, nb // len(spec["streams"]))
+        payloads = [mk(seed * 100003 + i * 31, per) for i in range(k)]
+        outs += fw.parallel(mod, fn, payloads)
+    tot = merge_streams(outs)
+    oc = tot["oracles"].get(spec["oracle"], {"n": 0, "nontrivial": 0, "viol": [], "known": {}})
+    known = fw.load_known(prop)
+    import witness as wit
+
+    known_lines = []
+    for f in known:
+        if wit.replay(f["witness"]):
+            hits = oc["known"].get(f["id"], {"count": 0})["count"]
+            known_lines.append(f"KNOWN-FINDING: property={prop} {f['id']} {f['what']} (witness still fails; cases in this class on this run: {hits})")
+    listed = {f["id"] for f in known}
+    violations = list(oc["viol"])
+    for k, v in oc["known"].items():
+        if k not in listed and v["count"]:
+            violations.append({"law": f"failing class {k} is not a listed known finding", "count": v["count"], "witness": v["witness"]})
+    corr = tot["corr"]
+    corr_breaks = [] if violations else ([{"layer": corr[0].get("layer"), "theorems": [t["name"] for t in audit["theorems"]], "smallest": corr[0], "count": len(corr)}] if corr else [])
+    stats = {
+        "evaluations": oc["n"],
+        "distinct_nontrivial": oc["nontrivial"],
+        "rule": "generated scenarios (class DAGs with multiple inheritance / ABC.register / protocols; method tables with 0-3 positions, optional and keyword-only parameters, priorities, repeated signatures; operation sequences of register / unregister / lookup or call, bodies delegating with call_next / recurse / f.next) executed on the real code and on the Lean model (every operation compared: outcome, trace of entered methods with the identities of received arguments, cache key sets or resolve counts), plus the property's oracle on the real code; non-trivial = the oracle's case had at least two applicable methods / a nested delegation / a keyword or omitted argument, by property",
+        "samples": tot["samples"],
+        "histogram": tot["hist"],
+        "known_finding_hits": {k: v["count"] for k, v in oc["known"].items()},
+        "traces_validated_against_impl": tot["ops"],
+        "assumptions": ["set iteration order imposed through ovld.typemap.set (ranked set) in correspondence runs"],
+    }
+    return fw.finish(prop, tier, seed, t0, audit, stats, violations, corr_breaks, known_lines)
+
+
 RUNNERS = {"C12": run_types, "C13": run_types}
+for _p in SPECS:
+    RUNNERS[_p] = run_generic
 
 
 def main():
